@@ -234,9 +234,10 @@ theorem spec_definite_does_not_imply_mini_complete :
 
 /-- Compiler + VM against `Spec.eval`.  For every well-scoped mini program `p` with ordered definitions
     on which the mini evaluator completes (some fuel `n`) and every jq program compiled as `p`:
-    whenever `Spec.eval` on the jq program ends definitely (any fuel `N`), running the compiled program — `env.execute`, then
-    `Next()` until exhaustion — returns exactly the output values of `Spec.eval`, in order, and
-    then stops with the error `Spec.eval` ended with (`Next` returns it) or with none. -/
+    whenever `Spec.eval` on the jq program ends definitely (any fuel `N`), running the compiled
+    program — `env.execute`, then `Next()` until exhaustion — returns exactly the output values of
+    `Spec.eval`, in order, and then stops with the error `Spec.eval` ended with (`Next` returns it)
+    or with none. -/
 theorem compile_refines_Spec_eval (p : Prog) (hwf : p.WF) (hord : ordered p = true) {bodies : List Query} {main : Query}
     (htr : TrProg p bodies main) (cfg : Spec.Cfg) (hc : NoShadow cfg)
     (s : Spec.St) (hs : Clean s) (n N : Nat) (hnd : ND (miniRun p n s.v).stop)
